@@ -16,8 +16,12 @@ from pv import trace as tracemod
 
 def _kind_independent(a, b):
     """Two adjacent transactions of different requests commute when neither
-    executed a write statement."""
-    return a[0] != b[0] and a[2] == 'R' and b[2] == 'R'
+    writes a table the other reads or writes (a transaction that wrote nothing
+    visible - read-only or rolled back - only reads)."""
+    if a[0] == b[0]:
+        return False
+    (ra, wa), (rb, wb) = a[3], b[3]
+    return not (wa & (rb | wb)) and not (wb & ra)
 
 
 class Explorer(object):
@@ -503,7 +507,7 @@ def worker(job):
                           # rows the projection cannot show: duplicate allocation rows, rows of missing providers
                           'residue': len(o['extra'].get('dangling', []))})
             meta[lid] = {'label': label, 'schedule': ''.join(o['schedule']),
-                         'executed': o['executed']}
+                         'executed': [[e[0], e[1], e[2], sorted(e[3][0]), sorted(e[3][1])] for e in o['executed']]}
             # the commits that changed the abstract database, in commit order
             eff = []
             prev = db0
